@@ -148,5 +148,64 @@ func VerifC04LPM() {
 		}
 	}
 	vnd.Assert(n == m.count(coveredBy), "C04.lpm.prefix.count")
+	if vnd.Param("LOWERBOUND", 0) == 1 {
+		// LowerBound(q/ql): every (stored prefix, object) pair whose prefix is not below the query in
+		// (masked bits, prefix length) order, ascending in that order, objects of one prefix by primary key
+		qb := q & maskOf(ql)
+		notBelow := func(k lkey) bool {
+			kb := k.b & maskOf(k.pl)
+			return vnd.Or(kb > qb, vnd.And(kb == qb, k.pl >= ql))
+		}
+		it, _ := txn.mustIndexReadTxn(t, t.indexPos("lpm")).lowerBound(lpm.EncodeLPMKey([]byte{q}, lpm.PrefixLen(ql)))
+		var lkeys []lkey
+		var lobjs []*vobj
+		it.All(func(key []byte, ob object) bool {
+			data, pl := lpm.DecodeLPMKey(key)
+			b := byte(0)
+			if len(data) > 0 {
+				b = data[0]
+			}
+			lkeys = append(lkeys, lkey{b, int(pl)})
+			lobjs = append(lobjs, ob.data.(*vobj))
+			return true
+		})
+		pairs := 0
+		for j, o := range lobjs {
+			ri, ok := m.byID[o]
+			vnd.Assert(ok, "C04.lpm.lowerbound.unknown")
+			if !ok {
+				continue
+			}
+			vnd.Assert(m.recs[ri].present, "C04.lpm.lowerbound.stale")
+			vnd.Assert(notBelow(lkeys[j]), "C04.lpm.lowerbound.below-query")
+			// the yielded key is one of the object's stored (masked) prefixes
+			mine := false
+			for _, k := range lpmKeysOf(o) {
+				mine = vnd.Or(mine, vnd.And(k.pl == lkeys[j].pl, k.b&maskOf(k.pl) == lkeys[j].b))
+			}
+			vnd.Assert(mine, "C04.lpm.lowerbound.key")
+			if j > 0 {
+				pb, cb := lkeys[j-1].b, lkeys[j].b
+				same := vnd.And(pb == cb, lkeys[j-1].pl == lkeys[j].pl)
+				asc := vnd.Or(pb < cb, vnd.And(pb == cb, lkeys[j-1].pl < lkeys[j].pl))
+				vnd.Assert(vnd.Or(asc, vnd.And(same, bytes.Compare(lobjs[j-1].id, o.id) < 0)), "C04.lpm.lowerbound.order")
+			}
+			pairs++
+		}
+		// expected number of pairs: distinct stored keys per current object that are not below the query
+		want := 0
+		for _, r := range m.recs {
+			ks := lpmKeysOf(r.obj)
+			for a, k := range ks {
+				dup := false
+				for _, k2 := range ks[:a] {
+					dup = vnd.Or(dup, vnd.And(k2.pl == k.pl, (k2.b^k.b)&maskOf(k.pl) == 0))
+				}
+				want += vnd.IteInt(vnd.And(r.present, vnd.And(notBelow(k), vnd.Not(dup))), 1, 0)
+			}
+		}
+		vnd.Assert(pairs == want, "C04.lpm.lowerbound.count")
+		vnd.Cover("C04.lpm.lowerbound")
+	}
 	vnd.Cover("C04.lpm.end")
 }
